@@ -1744,17 +1744,47 @@ def _pure_hoistable(e: ast.AST) -> bool:
     return False
 
 
-def propagate_pure_hoists(tree: ast.Module) -> int:
+_BASE_LOCALS = None
+
+
+def propagate_pure_hoists(tree: ast.Module, modname: str = "") -> int:
     """`sep = fs.sep; n = len(path) + 1; for ...: root[n:].split(sep)`  ->  `root[len(path) + 1:].split(fs.sep)`:
     a loop invariant hoisted into a function-level local is put back, provided the local is bound once by a top-level
     statement to a pure expression (names, attributes, arithmetic, len()) over names that are never re-bound after it,
     no attribute it reads is assigned in the function, it is read at least once inside a loop, and it is never used as
     a bare truth value (classifications such as `is_symlink = meta.is_link` are what rules anchor on and stay)."""
     total = 0
+    # locals the reference tree does not have in this function: a *new* hoist of a pure attribute chain (`trie =
+    # self._trie`, `root_key: Key = root_entry.key`) is put back even when it is not read inside a loop
+    global _BASE_LOCALS
+    if _BASE_LOCALS is None:
+        import json
+        import os
+
+        try:
+            with open(os.path.join(os.path.dirname(os.path.abspath(__file__)), "baseline_locals.json")) as fh:
+                _BASE_LOCALS = json.load(fh)
+        except OSError:
+            _BASE_LOCALS = {}
+    base_mod = _BASE_LOCALS.get(modname) if modname else None
+    qual_of: Dict[int, str] = {}
+
+    def _rec(node, prefix):
+        for ch in ast.iter_child_nodes(node):
+            if isinstance(ch, ast.ClassDef):
+                _rec(ch, prefix + ch.name + ".")
+            elif isinstance(ch, (ast.FunctionDef, ast.AsyncFunctionDef)):
+                qual_of[id(ch)] = prefix + ch.name
+                _rec(ch, prefix + ch.name + ".<locals>.")
+            else:
+                _rec(ch, prefix)
+
+    _rec(tree, "")
     for fn in ast.walk(tree):
         if not isinstance(fn, (ast.FunctionDef, ast.AsyncFunctionDef)):
             continue
         params = {a.arg for a in fn.args.posonlyargs + fn.args.args + fn.args.kwonlyargs}
+        base_names = set(base_mod.get(qual_of.get(id(fn), ""), ())) if base_mod is not None and qual_of.get(id(fn), "") in base_mod else None
         for _ in range(12):
             loads, stores, banned = _name_counts(fn)
             order = _ordered_names(fn)
@@ -1783,11 +1813,15 @@ def propagate_pure_hoists(tree: ast.Module) -> int:
             nested = {y.id for d in ast.walk(fn) if d is not fn and isinstance(d, (ast.FunctionDef, ast.AsyncFunctionDef, ast.Lambda)) for y in ast.walk(d) if isinstance(y, ast.Name)}
             found = None
             for i_, st in enumerate(fn.body):
-                if not (isinstance(st, ast.Assign) and len(st.targets) == 1 and isinstance(st.targets[0], ast.Name)):
+                if isinstance(st, ast.AnnAssign) and isinstance(st.target, ast.Name) and st.value is not None and base_names is not None and st.target.id not in base_names:
+                    x, v = st.target, st.value
+                elif isinstance(st, ast.Assign) and len(st.targets) == 1 and isinstance(st.targets[0], ast.Name):
+                    x, v = st.targets[0], st.value
+                else:
                     continue
-                x, v = st.targets[0], st.value
                 if isinstance(v, (ast.Name, ast.Constant)) or not _pure_hoistable(v):
                     continue
+                new_chain = base_names is not None and x.id not in base_names and isinstance(v, ast.Attribute) and all(isinstance(y, (ast.Attribute, ast.Name, ast.Load)) for y in ast.walk(v))
                 if x.id in banned or x.id in params or stores.get(x.id, 0) != 1 or x.id in truthy or x.id in nested:
                     continue
                 names = [y for y in ast.walk(v) if isinstance(y, ast.Name)]
@@ -1814,7 +1848,7 @@ def propagate_pure_hoists(tree: ast.Module) -> int:
                 if any(a == c or a.startswith(c + ".") or c.startswith(a + ".") for a in attr_stores for c in chains):
                     continue
                 uses = [n for n in order if n.id == x.id and isinstance(n.ctx, ast.Load)]
-                if not uses or any(pos[id(u)] < pos[id(x)] for u in uses) or not any(id(u) in in_loop for u in uses):
+                if not uses or any(pos[id(u)] < pos[id(x)] for u in uses) or not (new_chain or any(id(u) in in_loop for u in uses)):
                     continue
                 if any(isinstance(y, ast.BinOp) for y in ast.walk(v)):
                     # an operator builds a *new* object each time: fine for numbers / strings used as numbers, wrong for a
